@@ -19,6 +19,7 @@ func init() {
 			ID: "C15",
 			Explanation: "Nesting and 'success only if the step succeeded' are path properties of three functions whose emission sites are all static; they are decided per path. doRuntimeDomainInit emits init-start exactly once and first, registers init-report as its first defer (so it runs last, exactly once on every exit), registers the extension status lines and init-runtime-done later (the latter only after the runtime was started, hence at most once), all three tagged with the function's phase parameter, which its two callers set to Init and Invoke; " +
 				"a reaching-definitions dataflow over the status variable shows that an exit can carry 'success' only on the nil edge of AwaitRuntimeRestoreReady (the runtime reached its poll) and 'error' only together with a failure; the error type is nil exactly for success, else the first fatal error or Runtime.Unknown; the events watcher records the first fatal error before it cancels the flows, so the woken handler reads it. doInvoke emits invoke-start exactly once on every path and runtime-done at most once, after it, with status success only behind the nil edges of response and runtime-next; handleReset emits runtime-done only for the reasons failure/timeout; handleRestore defers exactly one restore-runtime-done whose status is error iff the result is an error. Extension status lines are one per known extension, wired from name, state name, subscriptions and error type, and every state reports its own name. " +
+				"Added after the blind rounds: the first-fatal-error record lives until the teardown; a refused fault report does not occupy it; every unexpected exit yields an error; the latch rules of C11. " +
 				"NOT decided: correlation with what 'really happened' beyond these gates; ordering of events emitted from different goroutines.",
 			RuleText:    "one obligation per emission site rule, per exit of the status dataflow, per wiring edge, per state name",
 			Assumptions: trusted,
@@ -33,7 +34,7 @@ func runC15(c *report.Ctx) {
 	checkInitEvents(c)
 	c.Clause("2 init runtime-done status")
 	checkInitStatusDataflow(c)
-	checkGatePrimitive(c) // the status derives from the await results of the barrier primitive
+	checkGatePrimitive(c)           // the status derives from the await results of the barrier primitive
 	checkFirstFatalErrorLifetime(c) // runtime-done/reset status and error type are read from this record
 	checkAgentFaultReports(c)       // a refused report must not occupy the first-fault slot
 	checkWatcherErrorNonNil(c)
